@@ -277,7 +277,7 @@ def prologue(w, cfg, r):
 
 M1_OK = {'var', 'const', 'apply', 'ite', 'fop', 'eqcheck', 'quant', 'let', 'cube',
          'gc', 'swap', 'reorder', 'pairs', 'declare', 'add_expr', 'to_expr',
-         'support', 'count', 'pick', 'sizes', 'traverse', 'configure', 'arm', 'mk_tt'}
+         'support', 'count', 'pick', 'sizes', 'traverse', 'configure', 'arm', 'mk_tt', 'mk_struct'}
 
 
 def next_instruction(w, r, cfg):
